@@ -29,7 +29,7 @@ def run(tier, seed, replay=None):
     if replay:
         rp = json.load(open(replay))
         case = rp["trace"]["input"]
-        trs = _fix(run_tasks("dlx", "run_dlx", [case], timeout=60), [case])
+        trs = _fix(run_tasks("dlx", "run_dlx", [case], timeout=120), [case])
         ck.classify(trs, ck.validate(DIR, "DlxTrace", trs, "replay"))
         return ck.finish()
     ck.mc(DIR, "AlgX", "MC_AlgX_2x3.cfg")
@@ -63,7 +63,7 @@ def run(tier, seed, replay=None):
     rc = corpus.dlx_cases(corpus.capture(["tests/solvors/test_dlx.py", "tests/examples/test_puzzles.py"] if tier == "thorough" else ["tests/solvors/test_dlx.py"]), drv.CALLS)
     ck.extra["inputs_recorded_from_repository_tests"] = len(rc)
     cases += rc
-    trs = _fix(run_tasks("dlx", "run_dlx", cases, timeout=60), cases)
+    trs = _fix(run_tasks("dlx", "run_dlx", cases, timeout=120), cases)
     vs = ck.validate(DIR, "DlxTrace", trs, "solve_exact_cover under 7 call configurations per input")
     # the exported expectation and the trace spec's own enumeration must agree (machinery self-check)
     for c, v in zip(cases[:nexp], vs[:nexp]):
@@ -95,7 +95,7 @@ def run(tier, seed, replay=None):
     # ---- step level: every _build_links / _cover / _uncover of a call, the real link structure walked after each one, replayed
     # against the matrix-level state DlxLinks proves it refines (diagnostic divergences)
     sc = drv.gen_steps(rng, 500 if tier == "quick" else 6000)
-    st = [r for r in run_tasks("dlx", "run_dlx_steps", sc, timeout=30) if isinstance(r, dict) and "steps" in r]
+    st = [r for r in run_tasks("dlx", "run_dlx_steps", sc, timeout=120) if isinstance(r, dict) and "steps" in r]
     if len(st) < len(sc) // 2:
         raise tlc.MachineryError("dancing-links step traces could not be recorded (%d of %d)" % (len(st), len(sc)))
     bulk = [{"seed": rng.randint(0, 10 ** 9), "count": 1500 if tier == "quick" else 20000, "cap": 40 if tier == "quick" else 300} for _ in range(14)]
